@@ -248,6 +248,7 @@ func retPlaceholder(toks []string, static []string) string {
 func init() {
 	execs["ret"] = execRet
 	execs["retseq"] = execRetSeq
+	execs["retnest"] = execRetNest
 	gens["C14"] = genRet
 }
 
@@ -651,6 +652,7 @@ func genRet(r *rand.Rand, tier string, emit Emit) {
 		}
 	}
 	genRetSeq(r, tier, emit)
+	genRetNest(r, tier, emit)
 }
 
 // ---------------------------------------------------------------- retseq: several handlers, one chain
@@ -870,6 +872,138 @@ func genRetSeq(r *rand.Rand, tier string, emit Emit) {
 				steps[j] = retSeqStep(r)
 			}
 			emit("Q %d %s", r.Intn(k+1), strings.Join(steps, " | "))
+		}
+	}
+}
+
+// ---------------------------------------------------------------- retnest: a request inside a request
+
+// execRetNest: the outer request's handler returns (code, body); before the return handler has
+// finished reading these values a nested request is served on the same Flame whose handler
+// returns other values.  Protocol: lean/Flamego/Driver/Ret.lean.
+func execRetNest(args []string, lines [][]string) []string {
+	if len(args) != 4 {
+		panic("retnest: want 4 session args")
+	}
+	method, oinv, ninv, via := args[0], args[1], args[2], args[3]
+	odef, ok1 := retShapes[oinv]
+	ndef, ok2 := retShapes[ninv]
+	if !ok1 || !ok2 || len(odef.static) != 2 || len(ndef.static) != 2 {
+		panic("retnest: bad invocation kind")
+	}
+	osess, nsess := &retSess{}, &retSess{}
+	f := flamego.NewWithLogger(io.Discard)
+	var nspy *retSpy
+	served := 0
+	nested := func() {
+		served++
+		if served > 1 {
+			return // never recurse
+		}
+		nspy = &retSpy{ResponseRecorder: httptest.NewRecorder()}
+		req, err := http.NewRequest("GET", "/inner", nil)
+		if err != nil {
+			panic(err)
+		}
+		f.ServeHTTP(nspy, req)
+	}
+	f.Route("GET", "/inner", []flamego.Handler{func() {}, ndef.build(nsess)})
+	hook := func(c flamego.Context) {
+		c.ResponseWriter().Before(func(flamego.ResponseWriter) { nested() })
+	}
+	outer := odef.build(osess)
+	path := "/outer"
+	switch via {
+	case "hrt":
+		f.Route(method, "/outer", []flamego.Handler{hook, outer})
+	case "hgrp":
+		f.Group("/g", func() { f.Route(method, "/outer", []flamego.Handler{func() {}, outer}) }, hook)
+		path = "/g/outer"
+	case "crh":
+		echo := flamego.ReturnHandler(func(c flamego.Context, vals []reflect.Value) {
+			nested()
+			w := c.ResponseWriter()
+			w.WriteHeader(int(vals[0].Int()))
+			if b := vals[1].String(); b != "" {
+				_, _ = w.Write([]byte(b))
+			}
+		})
+		f.Route(method, "/outer", []flamego.Handler{func(c flamego.Context) { c.Map(echo) }, outer})
+	default:
+		panic("retnest: bad via")
+	}
+	outs := []string{"new"}
+	for _, l := range lines {
+		if len(l) != 5 || l[0] != "N" {
+			outs = append(outs, "bad-op")
+			continue
+		}
+		osess.cur = []interface{}{atoi(l[1]), unhx(l[2])}
+		nsess.cur = []interface{}{atoi(l[3]), unhx(l[4])}
+		nspy, served = nil, 0
+		spy := &retSpy{ResponseRecorder: httptest.NewRecorder()}
+		req, err := http.NewRequest(method, path, nil)
+		if err != nil {
+			panic(err)
+		}
+		panicked := 0
+		func() {
+			defer func() {
+				if recover() != nil {
+					panicked = 1
+				}
+			}()
+			f.ServeHTTP(spy, req)
+		}()
+		first := func(s *retSpy) (int, string) {
+			if s == nil {
+				return 0, "-"
+			}
+			st := 0
+			if len(s.codes) > 0 {
+				st = s.codes[0]
+			}
+			return st, hx(s.Body.String())
+		}
+		ost, obody := first(spy)
+		nst, nbody := first(nspy)
+		if served > 1 {
+			served = 2 // a hook that fired twice would show
+		}
+		outs = append(outs, fmt.Sprintf("%d %s %d %s %d %d", ost, obody, nst, nbody, served, panicked))
+	}
+	return outs
+}
+
+func genRetNest(r *rand.Rand, tier string, emit Emit) {
+	invs := []string{"is", "isr", "isu", "cis"}
+	vias := []string{"hrt", "hgrp", "crh"}
+	// every pairing of invocation paths × every way of nesting × GET/HEAD, a few fixed payloads
+	for _, o := range invs {
+		for _, n := range invs {
+			for _, v := range vias {
+				for _, m := range []string{"GET", "HEAD"} {
+					if tier != "thorough" && m == "HEAD" && v != "hrt" {
+						continue
+					}
+					emit("NEW retnest %s %s %s %s", m, o, n, v)
+					emit("N 418 %s 200 %s", hx("body-of-A"), hx("body-of-B"))
+					emit("N 201 %s 404 %s", hx("a"), hx("a much longer nested body \xff"))
+					emit("N 404 - 202 %s", hx("nested only"))
+					emit("N 200 %s 204 -", hx("outer only"))
+				}
+			}
+		}
+	}
+	n := 150
+	if tier == "thorough" {
+		n = 6000
+	}
+	methods := []string{"GET", "GET", "POST", "HEAD"}
+	for i := 0; i < n; i++ {
+		emit("NEW retnest %s %s %s %s", methods[r.Intn(len(methods))], invs[r.Intn(4)], invs[r.Intn(4)], vias[r.Intn(3)])
+		for k := 1 + r.Intn(4); k > 0; k-- {
+			emit("N %d %s %d %s", 100+r.Intn(500), hx(retBody(r)), 100+r.Intn(500), hx(retBody(r)))
 		}
 	}
 }
